@@ -4,7 +4,8 @@ use qbase::{
     error::QuicError,
     packet::{
         decrypt::{
-            decrypt_packet, remove_protection_of_long_packet, remove_protection_of_short_packet,
+            check_reserved_bits_of_long_packet, check_reserved_bits_of_short_packet, decrypt_packet,
+            remove_protection_of_long_packet, remove_protection_of_short_packet,
         },
         header::long::InitialHeader,
         keys::ArcOneRttPacketKeys,
@@ -150,6 +151,11 @@ where
                 return None;
             }
         };
+        // only an authenticated packet may raise PROTOCOL_VIOLATION for its reserved bits
+        if let Err(invalid_reverse_bits) = check_reserved_bits_of_long_packet(pkt_buf[0]) {
+            self.drop_on_reverse_bit_error(&invalid_reverse_bits);
+            return Some(Err(invalid_reverse_bits.into()));
+        }
 
         Some(Ok(PlainPacket {
             header: self.header,
@@ -196,6 +202,11 @@ where
                 return None;
             }
         };
+        // only an authenticated packet may raise PROTOCOL_VIOLATION for its reserved bits
+        if let Err(invalid_reverse_bits) = check_reserved_bits_of_short_packet(pkt_buf[0]) {
+            self.drop_on_reverse_bit_error(&invalid_reverse_bits);
+            return Some(Err(invalid_reverse_bits.into()));
+        }
 
         Some(Ok(PlainPacket {
             header: self.header,
